@@ -66,13 +66,16 @@ type jDiscOp struct {
 	Views     []jView    `json:"views"`
 	Responded []uint16   `json:"responded"`
 	Pending   int        `json:"pending"`
+	Queried   []uint16   `json:"queried"`
+	PendingQ  int        `json:"pending_q"`
+	DrainedQ  [][]uint16 `json:"drained_q"`
 	MyView    []uint16   `json:"myview"`
 	IV        []uint16   `json:"iv"`
 	Drained   [][]uint16 `json:"drained"`
 	Tick      *string    `json:"tick"`
 	Query     *string    `json:"query"`
 	Cont      *[]uint16  `json:"cont"`
-	Ret       int        `json:"ret"` // 0 nothing returned since the previous op, 1 nil, 2 error
+	Ret       int        `json:"ret"` // 0 nothing returned since the previous op, 1 nil, errors: 2 first loop ended by the context, 3 too many members, 4 acknowledgements missing, 5 queries missing, 6 other
 	RetText   string     `json:"ret_text"`
 	NCont     int        `json:"ncont"`
 	Bad       string     `json:"bad"` // "blocked" | "panic: ..." | "stuck": the harness could not complete the op
@@ -167,6 +170,8 @@ func (f *discFixture) snapshot(op *jDiscOp) {
 	sort.Slice(op.Views, func(i, j int) bool { return op.Views[i].K < op.Views[j].K })
 	op.Responded = sortedU16(responded)
 	op.Pending = f.vt.PendingResponses()
+	op.Queried = sortedU16(f.vt.Queried())
+	op.PendingQ = f.vt.PendingQueries()
 	op.MyView = u16s(f.vt.MyView())
 }
 
@@ -256,7 +261,8 @@ func (f *discFixture) quiesce() bool {
 		f.mu.Unlock()
 		// first loop: the wake-up signal has been consumed; acknowledgement loop (nobody reads the signal any
 		// more): the responses channel has been emptied
-		calm := f.vt != nil && ((!inAck && f.vt.PendingSignal() == 0) || (inAck && f.vt.PendingResponses() == 0))
+		calm := f.vt != nil && ((!inAck && f.vt.PendingSignal() == 0) ||
+			(inAck && f.vt.PendingResponses() == 0 && f.vt.PendingQueries() == 0))
 		if calm && strings.HasPrefix(syncGoroutineState(), "select") {
 			stable++
 			if stable >= 2 {
@@ -333,8 +339,19 @@ func (f *discFixture) noteReturn(op *jDiscOp, was bool) {
 		if f.err == nil {
 			op.Ret = 1
 		} else {
-			op.Ret = 2
 			op.RetText = f.err.Error()
+			switch {
+			case strings.HasPrefix(op.RetText, "only "):
+				op.Ret = 2
+			case strings.HasPrefix(op.RetText, "too many members"):
+				op.Ret = 3
+			case strings.HasPrefix(op.RetText, "haven't received"):
+				op.Ret = 4
+			case strings.HasPrefix(op.RetText, "haven't been queried"):
+				op.Ret = 5
+			default:
+				op.Ret = 6
+			}
 		}
 	}
 }
@@ -612,6 +629,10 @@ func runDiscStep(r *prng, id int) *jDiscScen {
 			for _, d := range vt.DrainResponses() {
 				op.Drained = append(op.Drained, u16s(d))
 			}
+			op.DrainedQ = [][]uint16{}
+			for _, d := range vt.DrainQueries() {
+				op.DrainedQ = append(op.DrainedQ, u16s(d))
+			}
 		}
 		sc.Ops = append(sc.Ops, op)
 	}
@@ -728,16 +749,36 @@ func runDiscSync(r *prng, id int) *jDiscScen {
 				resp = append(resp, x)
 			}
 		}
+		// second round: every peer acknowledges and queries; some lists do not match, some messages come twice,
+		// some peers never query, and the two kinds arrive in any order
+		var second []discMsg
 		for _, p := range resp {
 			v := g.target
 			if r.chance(1, 4) {
 				v = g.lyingView(p)
 			}
-			script = append(script, discMsg{"response", p, discEncode(3, discTag(topic, p), v)})
+			second = append(second, discMsg{"response", p, discEncode(3, discTag(topic, p), v)})
 			if r.chance(1, 4) {
-				script = append(script, discMsg{"response", p, discEncode(3, discTag(topic, p), g.target)})
+				second = append(second, discMsg{"response", p, discEncode(3, discTag(topic, p), g.target)})
 			}
-			if noise && r.chance(1, 3) {
+			if !r.chance(1, 6) {
+				q := g.target
+				if r.chance(1, 5) {
+					q = g.lyingView(p)
+				}
+				second = append(second, discMsg{"query", p, discEncode(2, discTag(topic, p), q)})
+				if r.chance(1, 5) {
+					second = append(second, discMsg{"query", p, discEncode(2, discTag(topic, p), g.target)})
+				}
+			}
+		}
+		for i := len(second) - 1; i > 0; i-- {
+			j := r.intn(i + 1)
+			second[i], second[j] = second[j], second[i]
+		}
+		for _, m := range second {
+			script = append(script, m)
+			if noise && r.chance(1, 4) {
 				script = append(script, harmless())
 			}
 		}
@@ -758,6 +799,7 @@ func runDiscSync(r *prng, id int) *jDiscScen {
 		}
 		for _, p := range peers {
 			script = append(script, discMsg{"response", p, discEncode(3, discTag(topic, p), g.target)})
+			script = append(script, discMsg{"query", p, discEncode(2, discTag(topic, p), g.target)})
 		}
 	}
 	for _, m := range script {
